@@ -184,6 +184,13 @@ pub fn compaction_reorg_scenario(seed: u64, depth: usize, dir: &str) -> Result<S
 /// `outs_per_tx` outputs, all proofs built in parallel: 1 + 4 + (outs_per_tx + 1) * (n - 4) outputs, i.e. 107
 /// blocks with 9 outputs per transaction span two 1024-bit chunks of the output bitmap.
 pub fn build_multi_chunk_trunk(seed: u64, n_blocks: u64, outs_per_tx: usize) -> Hist {
+	build_multi_chunk_trunk_ex(seed, n_blocks, outs_per_tx, None)
+}
+
+/// As `build_multi_chunk_trunk`; with `swap_proofs_at = Some(i)` the transaction of block i carries the range
+/// proofs of its first two outputs swapped (the sums balance, every header commitment — computed by the reference
+/// ledger, which does not verify proofs — is consistent with the swapped proofs, and all later blocks build on it).
+pub fn build_multi_chunk_trunk_ex(seed: u64, n_blocks: u64, outs_per_tx: usize, swap_proofs_at: Option<u64>) -> Hist {
 	use std::collections::HashMap;
 	use std::sync::atomic::{AtomicU64, Ordering};
 	use grin_core::core::{KernelFeatures, Transaction};
@@ -237,7 +244,16 @@ pub fn build_multi_chunk_trunk(seed: u64, n_blocks: u64, outs_per_tx: usize) -> 
 	let mut p = Prng::new(seed ^ 0x7121);
 	for i in 1..=n_blocks {
 		let (tx, cb) = built.remove(&i).unwrap();
-		let txs: Vec<Transaction> = tx.into_iter().collect();
+		let mut txs: Vec<Transaction> = tx.into_iter().collect();
+		if swap_proofs_at == Some(i) {
+			if let Some(t) = txs.get_mut(0) {
+				if t.body.outputs.len() >= 2 {
+					let p0 = t.body.outputs[0].proof;
+					t.body.outputs[0].proof = t.body.outputs[1].proof;
+					t.body.outputs[1].proof = p0;
+				}
+			}
+		}
 		let b = h
 			.ledger
 			.make_block_with_reward(&mut p, &tip, &txs, cb, PowMode::Skip { difficulty: 10 }, 60)
